@@ -63,10 +63,14 @@ where
 
 pub trait EntryStoreTrait {
     /// Put the entries in their final order and give them their final index.
+    /// Return true if the order of the entries has changed.
     ///
-    /// Entries of a store may reference entries of another store of the same pack, so every
-    /// store must be ordered before any store computes its layout from such references.
-    fn finalize_order(&mut self) {}
+    /// Entries of a store may reference entries of another store of the same pack (and a store
+    /// may even be sorted on such references), so every store must be ordered before any store
+    /// computes its layout, and ordering one store may change the order of another one.
+    fn finalize_order(&mut self) -> bool {
+        false
+    }
     fn finalize(self: Box<Self>) -> Box<dyn WritableTell>;
 }
 
@@ -76,10 +80,19 @@ where
     VN: VariantName + std::fmt::Debug + Sync + 'static,
     Entry: FullEntryTrait<PN, VN> + Send + 'static,
 {
-    fn finalize_order(&mut self) {
+    fn finalize_order(&mut self) -> bool {
+        let mut changed = false;
         set_entry_idx(&mut self.entries);
         if let Some(keys) = &self.schema.sort_keys {
             let compare = |a: &Entry, b: &Entry| a.compare(&keys, b);
+            if self
+                .entries
+                .windows(2)
+                .all(|w| w[0].compare(&keys, &w[1]).is_le())
+            {
+                return false;
+            }
+            changed = true;
             self.entries.par_sort_unstable_by(compare);
             set_entry_idx(&mut self.entries);
             let mut watchdog = 50;
@@ -97,6 +110,7 @@ where
                 }
             }
         }
+        changed
     }
 
     fn finalize(mut self: Box<Self>) -> Box<dyn WritableTell> {
